@@ -19,7 +19,10 @@ FAMILY = "MoveBalance"
 
 CFG = """SPECIFICATION %(spec)s
 CONSTANTS
-  Accts = {"a", "b", "c"}
+  Accts = {"a", "b", "c", "p", "n"}
+  PayableSC = {"p"}
+  NonPayableSC = {"n"}
+  KnownDefects = {%(defects)s}
   EcoCfgs <- MCEco
   Scenarios <- MCScen
   Txs <- MCTxs
@@ -37,20 +40,26 @@ CHECK_DEADLOCK FALSE
 
 TRACE_CFG = """SPECIFICATION TraceSpec
 CONSTANTS
-  Accts = {"a", "b", "c", "d", "e"}
+  Accts = {"a", "b", "c", "d", "e", "p", "n"}
+  PayableSC = {"p"}
+  NonPayableSC = {"n"}
+  KnownDefects = {"notPayableFeeAccounting"}
   EcoCfgs = {}
   Scenarios = {}
   Txs = {}
   Log <- LogLast
   Strict = %(strict)s
 CONSTRAINT HighWater
-INVARIANTS TypeOK Inv_C23_Conservation
+INVARIANTS %(invs)s
 PROPERTIES TAct_C23_NonceIffCharged TAct_C23_Outcomes
 POSTCONDITION Accepted
 CHECK_DEADLOCK FALSE
 """
 
-PROPS_R1 = "VIEW cvars\nINVARIANTS TypeOK Inv_C23_Conservation\nPROPERTIES Act_C23_NonceIffCharged Act_C23_Outcomes"
+PROPS_R1 = ("VIEW cvars\nINVARIANTS TypeOK Inv_C23_Conservation InvK_C23_NoMint\n"
+            "PROPERTIES Act_C23_NonceIffCharged Act_C23_Outcomes")
+DEFECT = '"notPayableFeeAccounting"'
+CORE = "TypeOK Inv_C23_Conservation"
 
 
 def run(ctx):
@@ -58,7 +67,11 @@ def run(ctx):
     q = ctx.quick
     ctx.assume("specification: specs/MoveBalance/MoveBalance.tla; fee arithmetic as in specs/Fees/Fees.tla (C21)",
                "intra-shard only (one-shard coordinator), transaction type handler stubbed to (MoveBalance, MoveBalance), "
-               "smart-contract processor stubbed (IsPayable = true), receipts / bad-transaction forwarders swallow their input",
+               "receipts / bad-transaction forwarders swallow their input",
+               "receiver classes: plain account, account that does not exist yet, payable smart contract, smart-contract "
+               "address that is not payable (deployed with non-payable code metadata, or nothing deployed), sender = receiver; "
+               "IsPayable and ProcessIfError are the REAL scProcessor + BlockChainHookImpl (VM container mocked, never invoked); "
+               "transfers to contract addresses carry no data",
                "flags fixed per behaviour: (penalized-too-much-gas, gas-price-modifier) in {(off,off), (on,off), (on,on)} with "
                "the same enable epoch in economicsData and txProcessor; relayed v1/v2 disabled; meta protection enabled",
                "values are non-negative (negative values are rejected earlier, by the interceptor's integrity check); "
@@ -66,18 +79,28 @@ def run(ctx):
                "trusted: TLC, the projection (GetExistingAccount / GetAccumulatedFees) in harness/cmd/vh-movebalance")
     full = dict(values="0, 1, 4, 41", prices="0, 1, 2", gaslimits="1, 2, 3, 5, 7, 8", datalens="0, 1")
     # ---- R1: exhaustive to a bounded number of transactions (BFS + VIEW: hist is the shortest history)
-    trim = dict(gaslimits="1, 2, 3, 7, 8", values="0, 4, 41") if q else {}
+    trim = dict(gaslimits="1, 2, 3, 8", values="0, 4, 41") if q else {}
     open(os.path.join(sd, "r1.cfg"), "w").write(CFG % dict(
-        full, spec="GenSpec", log="LogAppend", depth=4, scen="quick" if q else "thorough", rest=PROPS_R1, **trim))
+        full, spec="GenSpec", log="LogAppend", depth=4, scen="quick" if q else "thorough", rest=PROPS_R1, defects="", **trim))
     dev = bool(os.environ.get("VERIF_DEV_SKIP_R1"))     # mutation-testing aid only: skips the code-independent R1 runs
     r1 = vlib.TlcResult() if dev else ctx.tlc(sd, "MC_MoveBalance", "r1.cfg", timeout=2400, coverage=not q)
+    # ---- R1 as the code is: TLC must find the fee that is accounted without being charged
+    if not dev:
+        open(os.path.join(sd, "r1d.cfg"), "w").write(CFG % dict(
+            full, spec="GenSpec", log="LogAppend", depth=3, scen="quick", defects=DEFECT,
+            rest="VIEW cvars\nINVARIANTS Inv_C23_Conservation InvK_C23_NoMint", **trim))
+        rd = ctx.tlc(sd, "MC_MoveBalance", "r1d.cfg", timeout=900, count=False, allow=("invariant",))
+        if rd.error == "invariant:InvK_C23_NoMint":
+            ctx.cov(r1_counterexample_with_known_defect="InvK_C23_NoMint")
+        else:
+            ctx.broken.append("R1 with KnownDefects: expected a counterexample to InvK_C23_NoMint, got %s" % rd.error)
     if not q and r1.ok and r1.coverage_zero:
         ctx.broken.append("vacuity guard: never evaluated in R1: %s" % sorted(set(r1.coverage_zero))[:10])
     exe = ctx.go_build("vh-movebalance")
     # ---- R2a: transition cover
     open(os.path.join(sd, "gen.cfg"), "w").write(CFG % dict(
         full, spec="GenSpec", log="LogAppend", depth=3, scen="quick" if q else "thorough",
-        rest="VIEW cvars\nACTION_CONSTRAINT EmitEdge", **trim))
+        rest="VIEW cvars\nACTION_CONSTRAINT EmitEdge", defects=DEFECT, **trim))
     beh = ctx.path("edges.ndjson")
     g = ctx.tlc(sd, "MC_MoveBalance", "gen.cfg", timeout=2400, behaviours_out=beh, count=False)
     if g.ok and g.behaviours == 0:
@@ -88,15 +111,16 @@ def run(ctx):
             outcome_classes_covered=int(r.stats.get("outcome_classes", 0)))
     # ---- R2b: long simulated behaviours
     open(os.path.join(sd, "sim.cfg"), "w").write(CFG % dict(
-        full, spec="GenSpec", log="LogAppend", depth=14, scen="thorough", rest="ACTION_CONSTRAINT EmitFull"))
+        full, spec="GenSpec", log="LogAppend", depth=14, scen="thorough", rest="ACTION_CONSTRAINT EmitFull", defects=DEFECT))
     beh2 = ctx.path("sim.ndjson")
     ctx.tlc(sd, "MC_MoveBalance", "sim.cfg", simulate=40 if q else 400, depth=14, timeout=900, behaviours_out=beh2,
             count=False)
     r2 = ctx.vh(exe, ["replay", beh2], timeout=1200, count_samples=False)
     ctx.cov(traces_validated_against_impl=int(r2.stats.get("behaviours", 0)), evaluations=int(r2.stats.get("steps", 0)))
     # ---- R3: random real histories validated by TLC
-    open(os.path.join(sd, "strict.cfg"), "w").write(TRACE_CFG % dict(strict="TRUE"))
-    open(os.path.join(sd, "obs.cfg"), "w").write(TRACE_CFG % dict(strict="FALSE"))
+    open(os.path.join(sd, "strict.cfg"), "w").write(TRACE_CFG % dict(strict="TRUE", invs=CORE))
+    open(os.path.join(sd, "obs.cfg"), "w").write(TRACE_CFG % dict(strict="FALSE", invs=CORE))
+    open(os.path.join(sd, "known.cfg"), "w").write(TRACE_CFG % dict(strict="FALSE", invs="InvK_C23_NoMint"))
     tr = os.path.join(sd, "trace.ndjson")
     nt, ln = (25, 120) if q else (250, 200)
     r3 = ctx.vh(exe, ["record", ctx.seed, nt, ln, tr])
@@ -112,6 +136,16 @@ def run(ctx):
             ctx.violation("C23/trace/" + ro.error.split(":", 1)[1],
                           "txProcessor trace: %s is false on the behaviour observed from the real code (around trace line %s)"
                           % (ro.error.split(":", 1)[1], (ro.last_l - 1) if ro.last_l else "?"), {"line": ro.last_l})
+    # known-deviation pass: fees accounted without having been charged, on what the code did
+    rk = ctx.tlc(sd, "Trace_MoveBalance", "known.cfg", workers=1, timeout=600, count=False,
+                 allow=("invariant", "postcondition", "property"))
+    if rk.error == "invariant:InvK_C23_NoMint":
+        lines = open(tr).read().splitlines()
+        ln = (rk.last_l - 1) if rk.last_l else None
+        ev = lines[ln - 1][:900] if ln and 1 <= ln <= len(lines) else None
+        ctx.violation("C23/trace/InvK_C23_NoMint",
+                      "txProcessor trace: the fee collector is credited more than the sender was charged (line %s: %s)" % (ln, ev),
+                      {"line": ln, "event": ev})
     if not q and st == "accepted":
         def corrupt_state(evs):
             for e in evs:
